@@ -818,6 +818,7 @@ def generate(rng: random.Random, profile: Optional[Dict[str, Any]] = None) -> Di
     n_ops = rng.randint(6, 28)
     n_focus = rng.randint(2, 5)
     names_only = [n for n, _ in rule_names]
+    tail_rules = R.harvest_tail() or names_only
     if profile.get("generated"):
         # focus on generated modules (incl. the special blocks: equal-count over-used constants,
         # process-dependent constant expressions, several spellings of one string)
@@ -857,7 +858,10 @@ def generate(rng: random.Random, profile: Optional[Dict[str, Any]] = None) -> Di
                 op["max_line_length"] = rng.choice([60, 79, 120])
         elif k == "RULE":
             x = pick_x()
-            if x in focus_rule and rng.random() < 0.6:
+            if profile.get("generated") and rng.random() < 0.5:
+                name = rng.choice(tail_rules)  # stages format_code runs once, rarely met in isolation
+                takes_p = takes_preserve[name]
+            elif x in focus_rule and rng.random() < 0.6:
                 name = focus_rule[x]  # the rule this snippet is an example input of
                 takes_p = takes_preserve[name]
             else:
